@@ -140,6 +140,34 @@ def run(tier, seed):
                 if set(ref.keys()) != set(res[l].keys()) or any(not np.array_equal(np.asarray(ref[k]), np.asarray(res[l][k])) for k in ref.keys()):
                     ck.violation({"clause": "lookup_table", "lmax": lmax, "l": l}, "inclination lookup(max l=%d, obliquity=%s)[%d] differs from calc_inclin_l%d%s" % (
                         lmax, use_obl, l, l, "" if use_obl else "_off"), {})
+    if not np.array_equal(test_I, np.array([0.3, 1.1])):
+        ck.violation({"clause": "inputs_unmodified", "fn": "lookup"}, "an inclination lookup changed the caller's obliquity array: %s" % test_I.tolist(), {})
+    # the same helpers on a SCALAR obliquity, in sequence for different maximum degrees and for the obliquity-on / -off tables at the same
+    # angle, and twice for the same request with the first answer overwritten in between: no answer may depend on an earlier call
+    for I_s in (0.7, np.float64(2.2)):
+        for k, (lmax, use_obl) in enumerate([(2, True), (3, True), (2, False), (3, True), (2, True), (5, True), (3, False), (4, True)]):
+            try:
+                _, _, _, inc = find_mode_manipulators(lmax, 2, use_obl)
+                res = inc(I_s if use_obl else 0.0)
+            except Exception as ex:
+                ck.violation({"clause": "lookup_table", "lmax": lmax, "sequence": True}, "inclination lookup(max l=%d, obliquity=%s)(%r) raised %s" % (lmax, use_obl, I_s, ex), {})
+                continue
+            ck.case(("lookup-seq", float(I_s), k, lmax, use_obl), True)
+            for l in range(2, lmax + 1):
+                ref = (IF.inclination_functions_on[l] if use_obl else IF.inclination_functions_off[l])(I_s if use_obl else 0.0)
+                if set(ref.keys()) != set(res[l].keys()) or any(float(np.asarray(ref[kk]).ravel()[0]) != float(np.asarray(res[l][kk]).ravel()[0]) for kk in ref.keys()):
+                    ck.violation({"clause": "lookup_table", "lmax": lmax, "l": l, "sequence": True}, "inclination lookup(max l=%d, obliquity=%s)(%r), call %d of a sequence at the same angle: degree %d differs from calc_inclin_l%d%s" % (
+                        lmax, use_obl, I_s, k + 1, l, l, "" if use_obl else "_off"), {})
+                    break
+            try:
+                k0 = sorted(res[2].keys())[0]
+                want = float(np.asarray(res[2][k0]).ravel()[0])
+                res[2][k0] = -12345.0
+                again = inc(I_s if use_obl else 0.0)
+                if float(np.asarray(again[2][k0]).ravel()[0]) != want:
+                    ck.violation({"clause": "lookup_table", "lmax": lmax, "aliasing": True}, "inclination lookup(max l=%d, obliquity=%s)(%r): a second identical request returns the caller's overwritten first answer" % (lmax, use_obl, I_s), {})
+            except Exception:
+                pass
     # every multi-degree lookup helper, evaluated as plain Python (NUMBA_DISABLE_JIT) on exact arguments, returns the per-degree tables
     import os
     pr = core.run_py(["-m", "harness.lookup_nojit"], timeout=900, env={"NUMBA_DISABLE_JIT": "1", "NUMBA_CACHE_DIR": os.environ.get("NUMBA_CACHE_DIR", "")})
